@@ -95,7 +95,11 @@ def p_pretty_call_alt(it, a, k, n):
     names = ['ctx', 'fn', 'args', 'kwargs']
     b = dict(zip(names, a))
     b.update(k)
-    args = [prov(x) for x in it.iterate(b.get('args', TupleV([])), n)]
+    a_ = b.get('args', TupleV([]))
+    if isinstance(a_, (TupleV, ListV)):
+        args = [prov(x) for x in a_.items]
+    else:
+        args = ['*' + prov(a_)]
     kw = b.get('kwargs', TupleV([]))
     kwargs = []
     if isinstance(kw, (TupleV, ListV)):
